@@ -10,7 +10,7 @@ import os, random, shutil
 from . import common as C, proggen as P, frontend as F
 
 PROP = "C17"
-MODULES = ["RuschmProofs.C17"]
+MODULES = ["RuschmProofs.C17", "RuschmProofs.C17More"]
 
 
 # (text, must be last): forms that fail before evaluation starts
